@@ -86,8 +86,10 @@ def r1_single_writer(repo):
                       ok and tested and leaves and pos,
                       "`%s`: result must be tested (`not ...` as a disjunct / any() element of an if-test) and a conflict "
                       "must `return {}`" % src(c)[:80]))
-    if len(ups) < 4:
-        raise AnalysisError("only %d calls of _update_type_var_map" % len(ups), rule="C10-R1", anchor=f.qualname)
+    obs.append(Ob("C10-R1", "all-binding-sites-go-through-the-writer", _w(f), len(ups) >= 4,
+                  "unify_types must bind through _update_type_var_map at its four binding sites (direct bound, unbounded "
+                  "variable, nested result merged entry by entry, bound-unification result merged entry by entry); found %d calls"
+                  % len(ups)))
     # recursive results are merged entry by entry and an empty recursive result gives {}
     recs = [n for n in iter_own_nodes(f.node) if isinstance(n, ast.Assign) and isinstance(n.value, ast.Call) and
             call_name(n.value) == "unify_types" and is_within(n, lp)]
@@ -259,13 +261,36 @@ def r4_projections(repo):
     return obs
 
 
+def r5_nested_strict(repo):
+    f, lp = _uf(repo)
+    obs = []
+    recs = [c for c in calls_in(f.node) if call_name(c) == "unify_types"]
+    inner = [c for c in recs if is_within(c, lp)]
+    outer = [c for c in recs if not is_within(c, lp)]
+    for i, c in enumerate(inner):
+        st = kwarg(c, "same_type", 3)
+        ok = st is None or const_value(st) is True
+        obs.append(Ob("C10-R5", "nested-unification#%d:strict-mode" % i, _w(f, c), ok,
+                      "type arguments must be unified in strict mode (same class on both sides): a nested call that forwards "
+                      "supertype-matching mode lets W<Sub<X>> unify with W<Super<T>> although type arguments are invariant "
+                      "positions of the match; found same_type=%s" % (src(st) if st is not None else "default True")))
+    ok = len(outer) == 1 and src(kwarg(outer[0], "same_type", 3)) == "same_type" and \
+        ("same_type", False) in _g(outer[0]) and src(outer[0].args[0]) == "supertype"
+    obs.append(Ob("C10-R5", "supertype-matching-climbs-only-at-top-level", _w(f), ok,
+                  "supertype-matching mode may only replace the whole target by one of its supertypes (top-level recursion under `not same_type`)"))
+    if len(inner) < 2:
+        raise AnalysisError("nested unification calls: %d" % len(inner), rule="C10-R5", anchor=f.qualname)
+    return obs
+
+
 def rules():
     return [
-        RuleSpec("C10-R1", "single writer: bindings only through _update_type_var_map, conflicts give {}", 7, r1_single_writer),
+        RuleSpec("C10-R1", "single writer: bindings only through _update_type_var_map, conflicts give {}", 6, r1_single_writer),
         RuleSpec("C10-R1b", "the writer stores only without conflict", 2, r1b_writer),
         RuleSpec("C10-R2", "bound test before every binding", 5, r2_bound_before_bind),
         RuleSpec("C10-R3", "structural mismatches give the empty map", 5, r3_mismatch),
         RuleSpec("C10-R4", "projections unwrapped only after variance/bound tests", 1, r4_projections),
+        RuleSpec("C10-R5", "nested unification is strict; supertype matching only at top level", 3, r5_nested_strict),
     ]
 
 
@@ -334,6 +359,25 @@ def _v_star_unchecked(tree):
     V.remove_stmt(tree, iff)
 
 
+def _v_nested_widening(tree):
+    f = _u(tree)
+    lp = V.one([n for n in f.body if isinstance(n, ast.For)])
+    c = [n for n in ast.walk(lp) if V.is_call_named(n, "unify_types")]
+    if not c:
+        raise V.SkipVariant("nested call")
+    c[-1].keywords.append(ast.keyword(arg="same_type", value=ast.Name(id="same_type", ctx=ast.Load())))
+
+
+def _v_update_merge(tree):
+    f = _u(tree)
+    iff = [n for n in ast.walk(f) if isinstance(n, ast.If) and ast.unparse(n.test).startswith("not res or any(")]
+    if not iff:
+        raise V.SkipVariant("merge")
+    i = iff[0]
+    i.test = V.parse_expr("not res")
+    V.insert_after(tree, i, V.parse_stmts("type_var_map.update(res)"))
+
+
 def _t_rename(tree):
     f = _u(tree)
     V.rename_local(f, "res", "nested")
@@ -351,6 +395,8 @@ def variants():
         V.Variant("ground arguments compared by name only", t, _v_ground_unchecked, {"C10-R3"}),
         V.Variant("variance comparison removed (the repaired defect, part 1)", t, _v_unwrap_unchecked, {"C10-R4"}),
         V.Variant("star projection test removed (the repaired defect, part 2)", t, _v_star_unchecked, {"C10-R4"}),
+        V.Variant("nested type arguments unified in supertype-matching mode", t, _v_nested_widening, {"C10-R5"}),
+        V.Variant("nested result merged with dict.update (conflicts lost)", t, _v_update_merge, {"C10-R1"}),
         V.Variant("twin: rename locals", t, _t_rename, None, twin=True),
         V.Variant("twin: whole tree reformatted by ast.unparse", None, None, None, twin=True),
     ]
